@@ -34,7 +34,9 @@ RULE = ("random discrete data sets with 1..12 columns, declared cardinalities 1.
         "(total) score(model) incl. structure prior and prior ratios on random DAGs (BayesianNetwork and DAG, "
         "1..12 nodes, edgeless, node subsets), metrics.structure_score with default and explicit arguments and its "
         "four rejection paths.  (cache) ScoreCache call sequences with eviction (max_size 0, 1..3, 10000, default; "
-        "values, hit/miss pattern, LRU order).  (session) ONE scorer, ONE ScoreCache and ONE graph object through "
+        "values, hit/miss pattern, LRU order), then ScoreCache.score(model) on a random DAG = the wrapped score's "
+        "score(model) = the model's total incl. structure prior, and the cache's prior / prior ratios = the wrapped "
+        "score's.  (session) ONE scorer, ONE ScoreCache and ONE graph object through "
         "a sequence of local_score / score calls and graph edits by every mutator (add_edge(s_from), "
         "remove_edge(s_from), remove_node(s_from), add_node(s_from), clear): after each step = the model on the "
         "current graph = a fresh scorer on a fresh graph.  (equiv) BDeu/BIC/AIC equality on pairs of "
@@ -48,8 +50,6 @@ TRUSTED_BASE = ["pandas groupby/unstack/value_counts, numpy sum/log, scipy gamma
 ASSUMPTIONS = ["no missing values (NaN) and no weighted counts; column and state names are interned to indices by the harness",
                "column names are strings: pandas reads integer names as level positions in Series.unstack(parents) "
                "(K2Score(df with columns 1,2,0).local_score(1,[2,0]) raises ValueError on the unchanged tree)",
-               "ScoreCache is observed through local_score (the route named by the property); ScoreCache.score() uses "
-               "the base class's structure_prior (0), so ScoreCache(BDsScore).score(model) lacks the BDs prior",
                "floating point is not modelled: agreement is 1e-9 relative on the evaluated formal sums"]
 
 ESS = [1, 2.5, 5, 10]
@@ -425,7 +425,9 @@ def cases(tier, seed):
             if rng.random() < 0.3:
                 rng.shuffle(ps)  # same parent set in another order: a different key
             calls.append([k[0], ps])
-        out.append({"kind": "cache", "data": data, "score": rng.randrange(5), "ess": rng.choice(ESS),
+        cnodes, cedges = common.rand_dag(rng, ncols, p=rng.choice([0.3, 0.6]))
+        out.append({"kind": "cache", "data": data, "score": rng.choice([0, 1, 2, 2, 3, 4]), "ess": rng.choice(ESS),
+                    "nodes": cnodes, "edges": [list(e) for e in cedges],
                     "max_size": rng.choice([0, 1, 1, 2, 2, 3, 10000, None]) if f % 8 == 0 else rng.choice([1, 2, 2, 3]),
                     "calls": calls})
     # sessions on one scorer / one cache / one graph object with edits through every mutator
@@ -433,7 +435,7 @@ def cases(tier, seed):
         ncols = rng.choice([3, 4, 5, 6])
         data = present(rng, gen_data(rng, ncols, rng.choice([3, 6, 12, 25])))
         nodes, edges, ops = gen_session(rng, ncols)
-        out.append({"kind": "session", "data": data, "score": rng.randrange(5), "ess": rng.choice(ESS),
+        out.append({"kind": "session", "data": data, "score": rng.choice([0, 1, 2, 2, 3, 4]), "ess": rng.choice(ESS),
                     "cls": rng.choice(["bn", "dag"]), "max_size": rng.choice([1, 2, 3, 50]),
                     "nodes": nodes, "edges": edges, "ops": ops})
     # Markov-equivalent pairs by covered-arc reversals
@@ -784,6 +786,23 @@ def run_cache(case, drv):
         link = link[1]
     if order != final or len(lru.mapping) != len(final) or len(final) > msn:
         return bad("impl!=model:cache-lru-order", {"impl": order, "model": final, "max_size": ms}, key=key, tags=tags)
+    # network score through the (now populated) cache, incl. the structure prior and the prior ratios of the wrapped score
+    nodes, edges = case.get("nodes"), case.get("edges")
+    if nodes is not None:
+        g = build_graph(case, "dag" if len(edges) % 2 else "bn", cn)
+        _, totals = drv.call("c10_total", [data["cards"], data["rows"], nodes, edges, Fraction(ess)])
+        m = ev(totals[code])
+        cv, fv = float(cache.score(g)), float(fresh.score(g))
+        if not close(cv, m) or not close(cv, fv, 1e-9):
+            return bad("impl!=model:cache-score", {"cached": cv, "uncached": fv, "model": m, "nodes": nodes, "edges": edges,
+                                                   "score": name}, key=key, tags=tags)
+        if not close(float(cache.structure_prior(g)), float(fresh.structure_prior(g)), 1e-12):
+            return bad("impl:cache-structure-prior", {"cached": float(cache.structure_prior(g)),
+                                                      "uncached": float(fresh.structure_prior(g))}, key=key, tags=tags)
+        for op in ("+", "-", "flip"):
+            if not close(float(cache.structure_prior_ratio(op)), float(fresh.structure_prior_ratio(op)), 1e-12):
+                return bad("impl:cache-structure-prior-ratio", {"op": op}, key=key, tags=tags)
+        tags.append("cache-score(model)")
     evicted = (len(case["calls"]) - hits) > len(final)
     return ok(nontrivial=hits > 0, key=key, tags=tags + (["eviction"] if evicted else []) + (["hit"] if hits else []))
 
@@ -811,10 +830,10 @@ def run_session(case, drv):
         _, totals = drv.call("c10_total", [data["cards"], data["rows"], nodes, edges, Fraction(ess)])
         m = ev(totals[code])
         f = float(scorers(df, sn, ess)[name].score(build_graph({"nodes": nodes, "edges": edges}, case["cls"], cn)))
-        # ScoreCache is observed through local_score (the property's route): sum over the nodes + the scorer's prior
-        vals = (("plain", float(plain.score(g))),
-                ("cached", float(sum(cached.local_score(n, list(g.predecessors(n))) for n in g.nodes())
-                                 + plain.structure_prior(g))))
+        # ScoreCache(score).score(model) == score.score(model) == sum of the cached local scores + the prior
+        vals = (("plain", float(plain.score(g))), ("cached", float(cached.score(g))),
+                ("cached-locals+prior", float(sum(cached.local_score(n, list(g.predecessors(n))) for n in g.nodes())
+                                              + cached.structure_prior(g))))
         for who, v in vals:
             if not close(v, m) or not close(v, f, 1e-9):
                 return bad("impl!=model:session-score:" + who, {"step": step, "op": case["ops"][step] if step >= 0 else "init",
